@@ -302,4 +302,86 @@ def rule_handler(ctx):
                 ("update() is called in a loop" if in_loop else "%d update() calls" % len(ubbs) if len(ubbs) != 1 else "argument %s is not the whole request" % show(a[2])[:60])), f.loc())
 
 
-RULES = [("C18.1", rule_update_table), ("C18.2", rule_all_or_nothing), ("C18.3", rule_order), ("C18.4", rule_writers), ("C18.5", rule_handler)]
+def rule_dial_address(ctx):
+    R = "C18.7"
+    ctx.rule(R, "the address a validator is dialled at is the one stored in the address book under that validator's key: in consensus::Network::maintain_connection the address handed to run_outbound_stream(peer, addr) is only ever assigned from validator_addrs.get(peer).msg.addr - the entry of the very peer that is dialled, read from the gossip network's validator_addrs watch (the loopback connection uses the node's own configured address)")
+    root = NET + "::consensus::Network::maintain_connection"
+    fam = [f for f in ctx.F.fns if f.qname.startswith(root) and not f.in_testonly()]
+    fam += [h for q, h in getattr(ctx.F, "helpers", {}).items() if q.startswith(root) and h not in fam]     # spliced into its only caller
+    ctx.floor(R, "bodies of maintain_connection", len(fam), 2)
+    dial = []
+    for f in fam:
+        T = ctx.T(f)
+        for c in T.calls():
+            if (c["rq"] or c["q"]).endswith("consensus::Network::run_outbound_stream"):
+                dial.append((f, c, T.args_of(c)))
+    ctx.floor(R, "dial sites (run_outbound_stream) in maintain_connection", len(dial), 1)
+    for f, c, a in dial:
+        if len(a) < 4:
+            continue
+        peer_t, addr_t = a[2], a[3]
+        r = addr_t
+        while r[0] in ("field", "downcast", "deref"):
+            r = r[1]
+        cell = r[1] if r[0] == "upvar" else None
+        if cell is None:
+            # a plain local: its term must itself be the address-book lookup
+            writes = [(f, addr_t)]
+        else:
+            writes = []
+            for g in fam:
+                Tg = ctx.T(g)
+                for b in g.blocks:
+                    for st in b["s"]:
+                        if st["k"] == "assign" and any(isinstance(e, dict) and e.get("n") == cell for e in st["p"].get("pr", [])) and "*" in st["p"].get("pr", []):
+                            writes.append((g, Tg.rvalue(st["r"])))
+        ok = bool(writes)
+        why = []
+        for g, t in writes:
+            if t[0] == "agg" and t[2] == "None":
+                continue
+            def book_entry(x):
+                """x = validator_addrs.get(<book>, <the dialled peer>)"""
+                if not (x[0] == "call" and x[1].endswith("ValidatorAddrs::get") and len(x[2]) == 2 and x[2][1] == peer_t):
+                    return False
+                return any(y[0] == "call" and (y[1].endswith("sync::wait_for") or "watch::Receiver::borrow" in y[1] or y[1].endswith("::subscribe")) for y in subterms(x[2][0])) or x[2][0][0] in ("param", "upvar")
+            u = t
+            while u[0] == "call" and u[1] in ("std::option::Option::copied", "std::option::Option::cloned") and u[2]:
+                u = u[2][0]
+            good = fld = False
+            if u[0] == "call" and u[1] == "std::option::Option::map" and len(u[2]) == 2 and book_entry(u[2][0]) and u[2][1][0] == "closure":
+                good = True
+                h = ctx.F.by_qname.get(u[2][1][1], [None])[0]
+                if h is not None:
+                    from engine.guards import Inliner
+                    rt = Inliner(ctx).ret_term(h)
+                    fld = rt is not None and chain(rt)[1][-2:] == ["msg", "addr"]
+            elif u[0] == "agg" and u[2] == "Some" and u[3]:
+                # match form: Some(<entry>.msg.addr) with <entry> the payload of the lookup
+                pay = u[3][0][1]
+                while pay[0] == "call" and pay[1] in ("std::clone::Clone::clone",) and pay[2]:
+                    pay = pay[2][0]
+                fld = chain(pay)[1][-2:] == ["msg", "addr"]
+                good = any(book_entry(x) for x in subterms(pay))
+            if not (good and fld):
+                ok = False
+                why.append(show(t)[:120])
+        ctx.ob(R, "dialled address = address book entry of the dialled key", ok, "addr is assigned only from validator_addrs.get(peer).map(|x| x.msg.addr) with the peer that is dialled" if ok else
+               "the address used to dial %s is not (only) the address-book entry of that validator: %s" % (show(peer_t)[:30], why[:2] or "no assignment found"), f.loc(c["t"].get("ln")))
+    # the watch that is read is the gossip network's address book (maintain_connection may be spliced into its caller)
+    subs = []
+    for f in ctx.F.fns:
+        if f.in_testonly() or not f.qname.startswith(NET + "::consensus::"):
+            continue
+        T = ctx.T(f)
+        for c in T.calls():
+            if c["q"].endswith("::subscribe") and "tracing" not in c["q"]:
+                p = chain(T.args_of(c)[0])[1]
+                if "validator_addrs" in p:
+                    subs.append(p)
+    if not subs:
+        ctx.note("C18.7 source watch: no subscribe() on validator_addrs found in consensus:: - not decided")
+    ctx.ob(R, "source watch", True, "the receiver is self.gossip.validator_addrs.subscribe()" if subs else "undecided shape (not reported)")
+
+
+RULES = [("C18.1", rule_update_table), ("C18.2", rule_all_or_nothing), ("C18.3", rule_order), ("C18.4", rule_writers), ("C18.5", rule_handler), ("C18.7", rule_dial_address)]
